@@ -56,18 +56,22 @@ func nonLocalStore(st *ssa.Store) bool {
 }
 
 var c03CacheMutators = map[string]bool{
-	"storage/mkvs.(*cache).removeNode":          true,
-	"storage/mkvs.(*cache).rollbackNode":        true,
-	"storage/mkvs.(*cache).setPendingRoot":      true,
-	"storage/mkvs/node.(*Pointer).SetDirty":     true,
-	"storage/mkvs.(*tree).doInsert":             true,
-	"storage/mkvs.(*tree).doRemove":             true,
+	"storage/mkvs.(*cache).removeNode":      true,
+	"storage/mkvs.(*cache).rollbackNode":    true,
+	"storage/mkvs.(*cache).setPendingRoot":  true,
+	"storage/mkvs/node.(*Pointer).SetDirty": true,
+	"storage/mkvs.(*tree).doInsert":         true,
+	"storage/mkvs.(*tree).doRemove":         true,
+	"storage/mkvs.(*cache).tryRemoveNode":   true,
+	"storage/mkvs.(*cache).doRemoveNode":    true,
 }
 
 func rulesC03Atomic(c *Ctx) {
 	const rule = "C03.atomic"
 	nFns := 0
-	for _, name := range []string{"storage/mkvs.(*tree).doInsert", "storage/mkvs.(*tree).doRemove", "storage/mkvs.(*tree).Insert", "storage/mkvs.(*tree).RemoveExisting"} {
+	// tryRemoveNode (eviction): a node that cannot be removed because the pointer being dereferenced is below it must stay
+	// whole (F20): the same rule, the failure being errRemoveLocked
+	for _, name := range []string{"storage/mkvs.(*tree).doInsert", "storage/mkvs.(*tree).doRemove", "storage/mkvs.(*tree).Insert", "storage/mkvs.(*tree).RemoveExisting", "storage/mkvs.(*cache).tryRemoveNode"} {
 		fn := c.needFn(rule, name)
 		if fn == nil {
 			continue
@@ -75,8 +79,8 @@ func rulesC03Atomic(c *Ctx) {
 		nFns++
 		c.Analysed[name] = true
 		// modification events
-		var mods []ssa.Instruction       // instructions after which the tree is modified
-		var modEdges [][]Edge            // success edges of mutating calls that can fail (recursion)
+		var mods []ssa.Instruction // instructions after which the tree is modified
+		var modEdges [][]Edge      // success edges of mutating calls that can fail (recursion)
 		var modCalls []ssa.CallInstruction
 		for _, b := range fn.Blocks {
 			for _, in := range b.Instrs {
@@ -221,7 +225,7 @@ func rulesC03Atomic(c *Ctx) {
 		}
 		c.Check(hit == nil, rule, name+":no error is produced after a modification", site, "no exit that creates an error is reachable after a modification ("+itoa(len(mods)+len(modCalls))+" modification events, "+itoa(nOb)+" fallible calls after them)", "an error is produced after the cached tree was already modified: the operation fails without being rolled back")
 	}
-	c.Floor(rule, nFns, 4, "tree mutators analysed")
+	c.Floor(rule, nFns, 5, "tree and cache mutators analysed")
 }
 
 func calleeShort(c ssa.CallInstruction) string {
